@@ -17,6 +17,7 @@
 #include "json_object_iterator.h"
 #include "json_visit.h"
 #include "linkhash.h"
+#include "json_object_private.h"   /* observation only: _ref_count */
 const char *DOMAIN = "lh";
 // WITH: drv_lh_ansi.c
 /* loops compiled as a strict ISO C application: the portable definition of
@@ -249,14 +250,33 @@ static unsigned long b_hash(const void *k)
 	int i = key_index((const char *)k);
 	return i >= 0 ? hashtab[i] : 0;
 }
+/* typed value token: n = NULL, an int as its value, anything else by its type name */
+static void valstr(struct json_object *val, char *out, size_t n)
+{
+	if (!val) snprintf(out, n, "n");
+	else if (json_object_get_type(val) == json_type_int) snprintf(out, n, "%d", json_object_get_int(val));
+	else snprintf(out, n, "T%s", json_type_to_name(json_object_get_type(val)));
+}
 static void item_kv(struct sb *b, const char *key, struct json_object *val)
 {
-	char tmp[64];
+	char tmp[64], vs[32];
 	int i = key_index(key);
 	if (i < 0) { sb_item(b, "?"); return; }
-	if (val) snprintf(tmp, sizeof tmp, "%d:%d", i, json_object_get_int(val));
-	else snprintf(tmp, sizeof tmp, "%d:n", i);
+	valstr(val, vs, sizeof vs);
+	snprintf(tmp, sizeof tmp, "%d:%s", i, vs);
 	sb_item(b, tmp);
+}
+/* does the object hold itself?  (then no traversal may be started on it) */
+static int holds_self(struct json_object *obj)
+{
+	struct lh_entry *e;
+	int guard = 0;
+	lh_foreach(json_object_get_object(obj), e)
+	{
+		if (++guard > 100000) break;
+		if (e->k != LH_EMPTY && e->k != LH_FREED && lh_entry_v(e) == (void *)obj) return 1;
+	}
+	return 0;
 }
 static void ansi_item(void *arg, const char *key, struct json_object *val) { item_kv((struct sb *)arg, key, val); }
 static int ansi_visit(void *arg, const char *key, struct json_object *val)
@@ -326,10 +346,8 @@ static void obs_b(struct json_object *obj, const char *ret)
 		void *base;
 		int off = (stepno + i) & 7;            /* every key meets every offset as the steps go by */
 		char *kp = key_copy(i, off, &base);
-		if (json_object_object_get_ex(obj, kp, &v)) {
-			if (v) snprintf(tmp, sizeof tmp, "%d", json_object_get_int(v));
-			else strcpy(tmp, "n");
-		} else strcpy(tmp, "-");
+		if (json_object_object_get_ex(obj, kp, &v)) valstr(v, tmp, sizeof tmp);
+		else strcpy(tmp, "-");
 		key_done(i, off, base);
 		sb_item(&g, tmp);
 	}
@@ -471,6 +489,60 @@ static void mode_b(char *rest)
 			key_done(k, off, base);
 			ret = 0;
 			break; }
+		case 's': {
+			/* self-insertion: json_object_object_add / _add_ex (obj, key, obj) */
+			int off = cut_off(tok), k = atoi(tok + 1), flags;
+			char *c1 = strchr(tok, ',');
+			unsigned opts = 0;
+			struct json_object *old = NULL;
+			uint32_t rc_obj0, rc_old0 = 0;
+			void *base;
+			char *kp;
+			char r[64];
+			if (!c1) { printf("BADOP"); goto out; }
+			flags = atoi(c1 + 1);
+			if (flags & 1) opts |= JSON_C_OBJECT_ADD_KEY_IS_NEW;
+			if (flags & 2) opts |= JSON_C_OBJECT_ADD_CONSTANT_KEY;
+			kp = key_copy(k, off, &base);
+			/* an extra reference on the value stored now: its survival is observable */
+			if (json_object_object_get_ex(obj, kp, &old) && old) { json_object_get(old); rc_old0 = old->_ref_count; }
+			else old = NULL;
+			rc_obj0 = obj->_ref_count;
+			if (flags == 0) ret = json_object_object_add(obj, kp, obj);
+			else ret = json_object_object_add_ex(obj, kp, obj, opts);
+			snprintf(r, sizeof r, "%d:%ld:%ld", ret, (long)obj->_ref_count - (long)rc_obj0,
+			         old ? (long)old->_ref_count - (long)rc_old0 : 0L);
+			if (old) json_object_put(old);
+			if ((flags & 2) && base && npers < 4 * MAXK) pers[npers++] = base;
+			else key_done(k, off, base);
+			if (holds_self(obj)) {
+				/* the object was stored inside itself: no traversal, no release is possible any more */
+				printf("%s SELFREF", r);
+				pair[0] = pair[1] = NULL;
+				goto out;
+			}
+			obs_b(obj, r);
+			continue; }
+		case 'q': {
+			/* documented answers that involve no table: NULL object, non-objects, NULL result pointer */
+			int off = cut_off(tok), k = atoi(tok + 1);
+			struct json_object *v, *io = json_object_new_int(5), *ar = json_object_new_array();
+			void *base;
+			char *kp = key_copy(k, off, &base);
+			char r[64];
+			int r1, r2, r3, r4, bad = 0;
+			v = obj; r1 = json_object_object_get_ex(NULL, kp, &v); if (v) bad = 1;
+			v = obj; r2 = json_object_object_get_ex(io, kp, &v); if (v) bad = 1;
+			v = obj; r3 = json_object_object_get_ex(ar, kp, &v); if (v) bad = 1;
+			r4 = json_object_object_get_ex(obj, kp, NULL);
+			snprintf(r, sizeof r, "%d:%d:%d:%d:%s:%s:%s%s", r1, r2, r3, r4,
+			         json_object_object_get(NULL, kp) ? "X" : "-", json_object_object_get(io, kp) ? "X" : "-",
+			         json_object_get_object(io) ? "X" : "-", bad ? ":V" : "");
+			key_done(k, off, base);
+			json_object_put(io);
+			json_object_put(ar);
+			obs_b(obj, r);
+			continue; }
 		case 'g': {
 			/* one key, one offset, every lookup entry point */
 			int off = cut_off(tok), k = atoi(tok + 1), j, same = 1;
